@@ -342,6 +342,129 @@ func intrinsicTable() map[string]intrinsic {
 		return s
 	}
 
+	// ---- byte-slice helpers whose bodies are assembly or go through string conversion: modelled on the slices ----
+	bytesEq := func(w *Worker, a, b SliceV) *Term {
+		if len(a) != len(b) {
+			return w.tt.False
+		}
+		c := w.tt.True
+		for i := range a {
+			c = w.tt.And(c, w.tt.Eq(a[i].(*Term), b[i].(*Term)))
+		}
+		return c
+	}
+	asBytes := func(w *Worker, v Value) SliceV {
+		switch x := v.(type) {
+		case SliceV:
+			return x
+		case string:
+			s := make(SliceV, len(x))
+			for i := 0; i < len(x); i++ {
+				s[i] = w.tt.BV(uint64(x[i]), 8)
+			}
+			return s
+		case nil:
+			return nil
+		}
+		w.abort("unsupported", "byte helper on %T", v)
+		return nil
+	}
+	t["bytes.Equal"] = func(w *Worker, fn *ssa.Function, a []Value) Value {
+		return bytesEq(w, asBytes(w, a[0]), asBytes(w, a[1]))
+	}
+	t["internal/bytealg.Equal"] = t["bytes.Equal"]
+	t["bytes.HasPrefix"] = func(w *Worker, fn *ssa.Function, a []Value) Value {
+		s, p := asBytes(w, a[0]), asBytes(w, a[1])
+		if len(p) > len(s) {
+			return w.tt.False
+		}
+		return bytesEq(w, s[:len(p)], p)
+	}
+	t["bytes.HasSuffix"] = func(w *Worker, fn *ssa.Function, a []Value) Value {
+		s, p := asBytes(w, a[0]), asBytes(w, a[1])
+		if len(p) > len(s) {
+			return w.tt.False
+		}
+		return bytesEq(w, s[len(s)-len(p):], p)
+	}
+	indexByte := func(w *Worker, fn *ssa.Function, a []Value) Value {
+		s, c := asBytes(w, a[0]), a[1].(*Term)
+		for i := range s {
+			if w.branch(w.tt.Eq(s[i].(*Term), c)) {
+				return w.tt.BV(uint64(i), 64)
+			}
+		}
+		return w.tt.BV(^uint64(0), 64)
+	}
+	t["internal/bytealg.IndexByte"] = indexByte
+	t["internal/bytealg.IndexByteString"] = indexByte
+	t["bytes.IndexByte"] = indexByte
+	t["internal/bytealg.Count"] = func(w *Worker, fn *ssa.Function, a []Value) Value {
+		s, c := asBytes(w, a[0]), a[1].(*Term)
+		n := 0
+		for i := range s {
+			if w.branch(w.tt.Eq(s[i].(*Term), c)) {
+				n++
+			}
+		}
+		return w.tt.BV(uint64(n), 64)
+	}
+	t["internal/bytealg.CountString"] = t["internal/bytealg.Count"]
+	compare := func(w *Worker, fn *ssa.Function, a []Value) Value {
+		x, y := asBytes(w, a[0]), asBytes(w, a[1])
+		n := len(x)
+		if len(y) < n {
+			n = len(y)
+		}
+		for i := 0; i < n; i++ {
+			xi, yi := x[i].(*Term), y[i].(*Term)
+			if w.branch(w.tt.Eq(xi, yi)) {
+				continue
+			}
+			if w.branch(w.tt.Cmp(OUlt, xi, yi)) {
+				return w.tt.BV(^uint64(0), 64)
+			}
+			return w.tt.BV(1, 64)
+		}
+		switch {
+		case len(x) < len(y):
+			return w.tt.BV(^uint64(0), 64)
+		case len(x) > len(y):
+			return w.tt.BV(1, 64)
+		}
+		return w.tt.BV(0, 64)
+	}
+	t["internal/bytealg.Compare"] = compare
+	t["bytes.Compare"] = compare
+
+	// ---- sort.Slice / sort.SliceStable: insertion sort driven by the caller's less function (forks on symbolic results) ----
+	sortSlice := func(w *Worker, fn *ssa.Function, a []Value) Value {
+		var s SliceV
+		switch x := a[0].(type) {
+		case Iface:
+			s, _ = x.V.(SliceV)
+		case SliceV:
+			s = x
+		}
+		if s == nil {
+			return nil
+		}
+		for i := 1; i < len(s); i++ {
+			for j := i; j > 0; j-- {
+				lt := w.callValue(a[1], []Value{w.tt.BV(uint64(j), 64), w.tt.BV(uint64(j-1), 64)}, "sort.Slice less").(*Term)
+				if !w.branch(lt) {
+					break
+				}
+				x, y := copyVal(s[j]), copyVal(s[j-1])
+				w.setSlot(&s[j], y)
+				w.setSlot(&s[j-1], x)
+			}
+		}
+		return nil
+	}
+	t["sort.Slice"] = sortSlice
+	t["sort.SliceStable"] = sortSlice
+
 	// ---- sort.Ints ----
 	t["sort.Ints"] = func(w *Worker, fn *ssa.Function, a []Value) Value {
 		s := a[0].(SliceV)
